@@ -61,6 +61,7 @@ def margin_case(draw, variant):
         subsets = [list(c) for r in range(1, nk + 1) for c in itertools.combinations(range(nk), r)]
         margins = draw(st.sampled_from([True] + subsets))
     return {"n": n, "keys": keys, "vals": vals, "agg": agg, "margins": margins, "sort": True,
+            "prior_margins": draw(st.one_of(st.none(), st.none(), st.lists(st.booleans(), min_size=1, max_size=6))),
             "mask": draw(S.mask_spec(n, kinds=("none", "none", "bool", "slice")))}
 
 
@@ -103,6 +104,13 @@ def check_value(agg, vspec, exp, got, gvals, what):
         raise Violation(f"value:{agg}", f"{what}: expected {exp!r} got {got!r}")
 
 
+def _prior_margins(gb, case, n, m):
+    """An earlier margins call on the same grouping object whose mask observes other groups (every third case)."""
+    if n and case.get("prior_margins"):
+        pm = np.array((case["prior_margins"] * n)[:n], dtype=bool)
+        gb.sum(np.arange(n, dtype=float), mask=pm, margins=m)
+
+
 def margin_check(case, ctx):
     if len(case["vals"]) > 1:
         return margin_check_multi(case, ctx)
@@ -114,6 +122,7 @@ def margin_check(case, ctx):
     mask = data.render_mask(case["mask"], n)
     gb = GroupBy(keys[0] if nk == 1 else keys)
     m = case["margins"]
+    _prior_margins(gb, case, n, m)
     res = gb.size(mask=mask, margins=m) if agg == "size" else getattr(gb, agg)(values, mask=mask, margins=m)
     levels = list(range(nk)) if m is True else list(m)
     table, labels, pos, vals = expected_table(case, levels)
@@ -157,6 +166,7 @@ def margin_check_multi(case, ctx):
     mask = data.render_mask(case["mask"], n)
     gb = GroupBy(keys[0] if nk == 1 else keys)
     m = case["margins"]
+    _prior_margins(gb, case, n, m)
     values = {v["name"]: data.render_val(v, "np") for v in case["vals"]}
     res = getattr(gb, agg)(values, mask=mask, margins=m)
     ctx.seen("margins", case, nk >= 2, [f"agg:{agg}", f"nkeys:{nk}", "margins:multi-column", "mask:" + (case["mask"]["kind"] if case["mask"] else "none")])
